@@ -28,15 +28,16 @@ L_KIND = z3.Function('lock_kind', LZ, z3.IntSort()); L_EXCL = z3.Function('lock_
 
 def build(reg):
     dyn.install(reg)
-    reg.tracked_names = {'OpenLocked', 'rename', 'dump', 'load', 'rmtree', 'unlink', 'remove', 'move', 'copytree', 'hashDirectoryWithSize', '__addPackage', '_LocalShare__addPackage'}
+    reg.tracked_names = {'useSharedPackage', 'OpenLocked', 'rename', 'dump', 'load', 'rmtree', 'unlink', 'remove', 'move', 'copytree', 'hashDirectoryWithSize', '__addPackage', '_LocalShare__addPackage'}
     reg.trusted += ['OpenLocked: __enter__ takes the flock (shared/exclusive) on the opened file, __exit__ releases it; flock semantics are the OS\'s',
                     'repo.json holds complete JSON whenever it is read under its lock (writers rewrite it completely under the exclusive lock; a crash in the middle of such a rewrite is outside this property)',
                     'os.rename of a directory is atomic and fails with ENOTEMPTY/EEXIST if the destination exists and is not empty',
                     'tempfile.TemporaryDirectory(dir=store) yields a private directory that is removed when the with-block is left (after the locks were released)']
+    reg.constants['errno.ENOTEMPTY'] = lambda e, st: mk_int(39); reg.constants['errno.EEXIST'] = lambda e, st: mk_int(17)
     def ghost_init(eng, st):
         g = st.ghost
         g['REPO'] = mk_int(0); g['PKG'] = mk_int(0)
-        g['VERIFIED'] = mk_bool(False); g['META_WRITTEN'] = mk_bool(False); g['RENAMED'] = mk_bool(False); g['REMOVED'] = mk_int(0); g['ACCOUNTED'] = mk_int(0)
+        g['REGISTERED'] = mk_bool(False); g['USE_CALLED'] = mk_bool(False); g['RENAME_TRIED'] = mk_bool(False); g['VERIFIED'] = mk_bool(False); g['META_WRITTEN'] = mk_bool(False); g['RENAMED'] = mk_bool(False); g['REMOVED'] = mk_int(0); g['ACCOUNTED'] = mk_int(0)
     def kind_of(node):
         src = ast.unparse(node.args[0]) if node.args else ''
         if 'repo.json' in src or src in ('fn',): return 1
@@ -92,6 +93,7 @@ def build(reg):
             verified = dyn.EQ(act.z, dyn.dynify(eng, st, want)) if act is not None and want is not None else z3.BoolVal(False)     # the code's own `actualHash != sharedHash` test was false
             eng.oblige(st, 'rename@%s:package-becomes-visible-only-after-its-hash-was-verified-and-its-meta-data-written' % ln,
                        z3.And(verified, g(st, 'META_WRITTEN')), 'typestate', node)
+            st.ghost['RENAME_TRIED'] = mk_bool(True)
             x = st.fork(); out = [eng.raise_(x, 'OSError', 'rename fails (lost race or I/O) at %s' % eng.loc(node))]
             st.ghost['RENAMED'] = mk_bool(True); out.append((st, mk_none())); return out
         return [eng.raise_(st.fork(), 'OSError', 'rename fails at %s' % eng.loc(node)), (st, mk_none())]
@@ -128,6 +130,13 @@ def build(reg):
             eng.oblige(st, '%s@%s:nothing-is-deleted-while-a-lock-is-held' % (nm, node.lineno), z3.And(g(st, 'REPO') == 0, g(st, 'PKG') == 0), 'typestate', node)
             return [(st, mk_none())]
         reg.models['Dyn.' + nm] = m_del
+    @reg.model('Dyn.useSharedPackage')
+    def m_use(eng, st, args, kw, node):
+        # (called by installSharedPackage when the package is already there: records this workspace as a user)
+        x = st.fork(); out = [eng.raise_(x, 'bob.errors.BuildError', 'meta data unreadable at %s' % eng.loc(node))]
+        path = dyn.fresh('usedPath'); st.ghost['REGISTERED'] = V(BOOL, path.z != dyn.NONE_D); st.ghost['USE_CALLED'] = mk_bool(True)
+        out.append((st, V(PyTupT(2), [path, dyn.fresh('usedHash')])))
+        return out
     @reg.model('Dyn.__addPackage', 'Dyn._LocalShare__addPackage')
     def m_add(eng, st, args, kw, node):
         eng.oblige(st, 'addPackage@%s:size-accounted-only-for-a-package-this-call-made-visible' % node.lineno, g(st, 'RENAMED'), 'typestate', node)
@@ -155,8 +164,15 @@ def build(reg):
         ensures_exc=[('all-locks-released', '*', lambda o, n: z3.And(n.ghost.REPO.z == 0, n.ghost.PKG.z == 0))],
         raises={'bob.errors.BuildError': True, 'OSError': True, 'FileNotFoundError': True, 'FileExistsError': True}, result=None, max_paths=6000, loops={1: LoopSpec(inv=scan), 2: LoopSpec(inv=snap)},
         note='packages leave the store only under the exclusive repository lock, never in a dry run, only when the admission guard holds; accounting rewritten under the same lock'))
+    def inst_post(o, n, r):
+        installed = r[1]
+        g = n.ghost
+        # found installed (no rename tried): handed out only if the registration succeeded; lost rename race: the registration was
+        # attempted (if the winner's package vanished again in between there is nothing left to register for)
+        return z3.Implies(z3.Not(installed.z) if installed.t == BOOL else z3.BoolVal(False),
+                          z3.And(g.USE_CALLED.z, z3.Not(g.RENAMED.z), z3.Implies(z3.Not(g.RENAME_TRIED.z), g.REGISTERED.z)))
     units.append(Unit(F, 'LocalShare.installSharedPackage', {'self': DYN, 'workspace': DYN, 'buildId': DYN, 'sharedHash': DYN, 'mayMove': DYN}, 'C15', ghost_init=ghost_init,
-        ensures=[], raises={'bob.errors.BuildError': True}, result=None, max_paths=6000,
+        ensures=[('a-package-installed-by-somebody-else-is-handed-out-only-after-recording-this-workspace-as-its-user', inst_post)], raises={'bob.errors.BuildError': True}, result=None, max_paths=6000,
         note='visible only after hash verification and meta data; lost rename race tolerated; size accounted after a successful rename'))
     units += [
               Watch(F, 'OpenLocked.__enter__', 'flock'), Watch(F, 'OpenLocked.__exit__', 'flock'),
